@@ -567,6 +567,67 @@ fn main() {
             }
         });
     }
+    // very large entries: one entry with a value of 2^k + 1 bytes (k = 20..25, thorough 26) between
+    // two small ones, written in one call and in eight chunks; nothing about a well-formed
+    // stream depends on how large an entry is
+    {
+        let ks: Vec<u32> = (20..=run.pick(25, 26) as u32).collect();
+        run.bound(format!("very large entries: a value of 1.25 x 2^k bytes for k = 20..={}, single write, 8 and 48 chunks", ks.last().unwrap()));
+        par_items(&run, "C09 very large entries", &ks, |_, k, t| {
+            let mut big = entry("v", 0, false);
+            // 1.25 x 2^k bytes: with 48 pieces more than 2^k bytes are pending before the separator arrives
+            big.insert(2, Val::S("\u{e9}v".repeat(((1usize << k) + (1usize << (k - 2))) / 3 + 1)));
+            let spec = good_spec("very large entry", vec![entry("u", 0, false), big, entry("w", 2, false)]);
+            let n = spec.bytes.len();
+            // 8 pieces, and 48 pieces (so that almost the whole entry is pending without a separator)
+            for cuts in [vec![], (1..8).map(|i| i * (n / 8) + 1).collect::<Vec<usize>>(), (1..48).map(|i| i * (n / 48) + 1).collect::<Vec<usize>>()] {
+                t.evals += 1;
+                t.validated += 1;
+                t.states += 1;
+                t.transitions += cuts.len() as u64 + 1;
+                t.nontrivial += 1;
+                match run_partition(&spec, &cuts) {
+                    Some(mut v) => {
+                        v.case = json!({"stream": bytes_json(&spec.bytes[..2000.min(n)]), "note": format!("first 2000 bytes only; the COMMENT value is 'e-acute v' repeated to 1.25 x 2^{} bytes; rerun the check to reproduce", k), "cuts": cuts});
+                        t.violation(v)
+                    }
+                    None => t.outcome("scale/very-large-entry-ok"),
+                }
+            }
+        });
+    }
+    // a collector that is written to again after a failed write must neither panic nor lose what
+    // it had: for each malformed stream and every single cut, the writes go on after the failure
+    {
+        let mut t = Tally::new();
+        for spec in &bad {
+            let n = spec.bytes.len();
+            for q in 1..n {
+                t.evals += 1;
+                t.validated += 1;
+                t.states += 1;
+                t.transitions += 4;
+                let r = guard(|| {
+                    let mut s = SummaryStream::new();
+                    let r1 = s.write(&spec.bytes[..q]).is_ok();
+                    let before = s.entries().len();
+                    let r2 = s.write(&spec.bytes[q..]).is_ok();
+                    let mid = s.entries().len();
+                    // further data after the stream has failed
+                    let _ = s.write(b"");
+                    let _ = s.write(b"\n\n");
+                    let _ = s.write(b"x");
+                    (r1, r2, before, mid, s.entries().len())
+                });
+                match r {
+                    Ok((_, _, before, mid, after)) if before <= mid && mid <= after => t.outcome("after-failure/no-panic-nothing-lost"),
+                    other => t.violation(Violation::new("partition", case(spec, &[q]), json!("later writes return (Ok or Err) and never drop collected entries"), json!(format!("{:?}", other)), "writing on after a failed write")),
+                }
+            }
+        }
+        run.bound(format!("writing on after a failure: {} malformed streams x every single cut, three more writes after the end", bad.len()));
+        run.merge(t);
+    }
     // junk sweep: one extra character (every ASCII character, 64 special ones, NUL) at the
     // start of the stream, of a later line, of the second entry, at the end of a line, and alone
     // on a line inside the separator; the expectation is derived from the text with the reference
